@@ -204,6 +204,11 @@ type blobReader struct {
 	digester hash.Hash
 	desc     ociregistry.Descriptor
 	verify   bool
+	// When checkRangeSize is true, the reader is for part
+	// of a blob and rangeSize holds the number of bytes
+	// that part has.
+	checkRangeSize bool
+	rangeSize      int64
 }
 
 func (r *blobReader) Descriptor() ociregistry.Descriptor {
@@ -220,6 +225,9 @@ func (r *blobReader) Read(buf []byte) (int, error) {
 			// when we're not verifying for other use cases.
 			return n, fmt.Errorf("blob size exceeds content length %d: %w", r.desc.Size, ociregistry.ErrSizeInvalid)
 		}
+		if r.checkRangeSize && r.n > r.rangeSize {
+			return n, fmt.Errorf("more content than the %d bytes of the requested range: %w", r.rangeSize, ociregistry.ErrSizeInvalid)
+		}
 		return n, nil
 	}
 	if err != io.EOF {
@@ -229,6 +237,9 @@ func (r *blobReader) Read(buf []byte) (int, error) {
 		if r.n > r.desc.Size {
 			// The final read can return data along with io.EOF.
 			return n, fmt.Errorf("blob size exceeds content length %d: %w", r.desc.Size, ociregistry.ErrSizeInvalid)
+		}
+		if r.checkRangeSize && r.n != r.rangeSize {
+			return n, fmt.Errorf("content size mismatch for requested range (%d/%d): %w", r.n, r.rangeSize, ociregistry.ErrSizeInvalid)
 		}
 		return n, io.EOF
 	}
